@@ -30,7 +30,7 @@ type seqCheck struct {
 
 var seqChecks = map[string]seqCheck{
 	"C01": {families: []string{"core", "cfg", "roll", "inputs", "inputs-nt", "helpers"}},
-	"C02": {families: []string{"tail", "core"}},
+	"C02": {families: []string{"tail", "core", "inputs"}},
 	"C03": {families: []string{"core", "cfg", "roll", "tail", "inputs", "firstcall"}},
 	"C04": {families: []string{"core", "cfg", "roll", "tail", "inputs", "firstcall"}},
 	"C09": {families: []string{"collide", "firstcall"}},
@@ -39,7 +39,7 @@ var seqChecks = map[string]seqCheck{
 	"C12": {families: []string{"del"}},
 	"C13": {families: []string{"core", "cfg", "roll", "inputs", "firstcall"}, pre: runCodecx},
 	"C15": {families: []string{"trim", "firstcall"}},
-	"C16": {families: []string{"kv", "kv-rx"}},
+	"C16": {families: []string{"kv", "kv-rx", "kv-head"}},
 	"C17": {families: []string{"versions", "versions-mid"}},
 	"C20": {families: []string{"backup"}, post: runBackupSched},
 }
